@@ -4,14 +4,8 @@ From AV Require Export Model.Plan Spec.C01.
 (* history, resolved target (None = base), branch revision of the request (if any), current rows *)
 Definition input02 : Type := graph * option N * option N * list N.
 
-(* roots of the removal: children by down_revision of the target; all bases for `base`;
+(* roots of the removal (Plan.roots_of): children by down_revision of the target; all bases for `base`;
    with a branch request and several roots, those on the branch *)
-Definition roots_of (G:graph) (target branch : option N) : list N :=
-  let roots0 := match target with None => bases_of G | Some t => nextrev G t end in
-  match branch, roots0 with
-  | Some b, _ :: _ :: _ => interN roots0 (reach_or_nil (down G) G [b])
-  | _, _ => roots0
-  end.
 
 (* x is a descendant-or-self of some root: some root is an ancestor-or-self of x *)
 Definition DescOf (G:graph) (R : list N) (x:N) : Prop := exists r, In r R /\ Anc G x r.
